@@ -204,6 +204,7 @@ def main() -> int:
     stexts = ['\n'.join(ptexts[i:i + n]) for i, n in ((0, 1), (3, 2), (10, 3), (40, 5))] + [f'# id: p{i}\n# title: "t"\n{t}' for i, t in enumerate(ptexts[::97])]
     raw = ['x < 1e999', 'x < inf', 'x < INF', 'y = 2e308', '1E-7 + 007 < 1.50', 'x = 1.0', 'x = 1', 'x = 01', '.5 < 5.', 'x < 1e400 and y > -1E400', 'x = 0.10', 'z = 1e-5', 'z = 0.00001',
            'z < 12345678901234567890', 'a = "x" and b = "x "', 'a = "\\"" or b = "\\\\"', 'xs[0][1].f.g[2] = 1', '@A.b.c[1].d > 0', 'f( g ( h(x) ) ) > 0', 'x in {1, 1.0, 1e0}',
+           'xs[01] = 1', 'xs[00] < xs[0]', 'grid[007][2] = xs[1]', 'xs[1E0] = 1', 'x in [00 to 010]', 'int((a < b)) = 1', 'str((not ok)) = s', 'bool((a and b))', 'abs((x - y)) > 0',
            '- - x > - 1', 'not not p', '(((x))) = (y)', 'x ** y ** z > 0', 'a - b - c = a - (b - c)']
     items = [('exprtext', t) for t in raw] + [('expr', s) for s in especs] + [('pred', s) for s in especs[::2]] + [('prop', t) for t in ptexts] + [('spec', t) for t in stexts]
     t0 = time.time()
